@@ -352,7 +352,7 @@ func (f *MemFile) ReadDir(n int) (entries []fs.DirEntry, err error) {
 	}
 
 	end := start + n
-	if end > len(f.dirEntries) {
+	if end > len(f.dirEntries) || end < start {
 		end = len(f.dirEntries)
 	}
 
@@ -429,7 +429,7 @@ func (f *MemFile) Readdirnames(n int) (names []string, err error) {
 	}
 
 	end := start + n
-	if end > len(f.dirNames) {
+	if end > len(f.dirNames) || end < start {
 		end = len(f.dirNames)
 	}
 
